@@ -245,6 +245,7 @@ type thread struct {
 	resume  chan struct{}
 	done    bool
 	blocked *sync.Mutex
+	waiting func() bool // a channel operation that cannot proceed yet: reports whether it can now
 	vc      []int
 	panic   any
 }
@@ -473,6 +474,93 @@ func MuUnlock(mu *sync.Mutex, site string) {
 		cur.vc[cur.id]++
 	}
 	mu.Unlock()
+}
+
+// ---- channels
+//
+// A send or receive on a buffered channel is a scheduling point; one that cannot proceed blocks the thread until it
+// can (a full channel has room again, an empty one holds a value or was closed by woven code), and "every thread
+// blocked" is a deadlock. Happens-before: every operation on a channel is ordered after all earlier operations on it
+// (coarser than the language's rule, which can only hide a race report, never invent one). Unbuffered channels are
+// operated natively and recorded in UnmodelledSync.
+
+var (
+	chanVC     = map[unsafe.Pointer][]int{}
+	chanClosed = map[unsafe.Pointer]bool{}
+	ChanOps    int
+)
+
+func chanSync(p unsafe.Pointer) {
+	v := chanVC[p]
+	if v == nil {
+		v = make([]int, len(cur.vc))
+	}
+	vcJoin(cur.vc, v)
+	vcJoin(v, cur.vc)
+	chanVC[p] = v
+	cur.vc[cur.id]++
+}
+
+func ChanSend[C ~chan T | ~chan<- T, T any](ch C, v T, site string) {
+	if !active || cur == nil {
+		ch <- v
+		return
+	}
+	if cap(ch) == 0 {
+		UnmodelledSync = append(UnmodelledSync, site+": send on an unbuffered channel")
+		ch <- v
+		return
+	}
+	ChanOps++
+	p := reflect.ValueOf(ch).UnsafePointer()
+	yield()
+	for {
+		if chanClosed[p] {
+			ch <- v // panics, as the language says
+		}
+		select {
+		case ch <- v:
+			cur.waiting = nil
+			chanSync(p)
+			return
+		default:
+		}
+		cur.waiting = func() bool { return len(ch) < cap(ch) || chanClosed[p] }
+		yield()
+	}
+}
+
+func ChanRecv[C ~chan T | ~<-chan T, T any](ch C, site string) T {
+	if !active || cur == nil {
+		return <-ch
+	}
+	if cap(ch) == 0 {
+		UnmodelledSync = append(UnmodelledSync, site+": receive on an unbuffered channel")
+		return <-ch
+	}
+	ChanOps++
+	p := reflect.ValueOf(ch).UnsafePointer()
+	yield()
+	for {
+		select {
+		case v := <-ch:
+			cur.waiting = nil
+			chanSync(p)
+			return v
+		default:
+		}
+		cur.waiting = func() bool { return len(ch) > 0 || chanClosed[p] }
+		yield()
+	}
+}
+
+func ChanClose[C ~chan T | ~chan<- T, T any](ch C, site string) {
+	if active && cur != nil {
+		p := reflect.ValueOf(ch).UnsafePointer()
+		chanClosed[p] = true
+		chanSync(p)
+	}
+	close(ch)
 }
 
 func atomicSync(p unsafe.Pointer) {
@@ -777,6 +865,7 @@ func Run(pfx []int, bodies ...func()) (res Result) {
 	words = map[uintptr]*wordState{}
 	fsWords, FSAccesses = map[string]*fsState{}, 0
 	muVC, atomVC = map[*sync.Mutex][]int{}, map[unsafe.Pointer][]int{}
+	chanVC, chanClosed, ChanOps = map[unsafe.Pointer][]int{}, map[unsafe.Pointer]bool{}, 0
 	syncVC = nil
 	SharedReads, SharedWrites, AllAccesses = 0, 0, 0
 	newContended = false
@@ -818,6 +907,9 @@ func Run(pfx []int, bodies ...func()) (res Result) {
 	canRun := func(t *thread) bool {
 		if t.done {
 			return false
+		}
+		if t.waiting != nil {
+			return t.waiting()
 		}
 		if t.blocked == nil {
 			return true
